@@ -39,6 +39,10 @@ REPO_ROOT = os.path.abspath(os.environ.get("VF_REPO_ROOT", "/repo"))
 # when the sensitivity protocol runs a mutant).
 sys.path.insert(0, REPO_ROOT)
 
+import logging  # noqa: E402
+
+logging.disable(logging.WARNING)  # fairlearn logs advisory warnings (grid sizes, missing sensitive features)
+
 
 class PropertyViolation(AssertionError):
     """The property does not hold on this case."""
